@@ -51,6 +51,26 @@ def run_extract():
     return rc == 0, out
 
 
+def gen_closure(mods):
+    """names of the AITB.Gen.* modules reachable through `import` lines from the given Lean modules"""
+    seen, gens, todo = set(), set(), list(mods)
+    while todo:
+        m = todo.pop()
+        if m in seen:
+            continue
+        seen.add(m)
+        if m.startswith('AITB.Gen.'):
+            gens.add(m[len('AITB.Gen.'):])
+        f = os.path.join(VERIF, 'lean', *m.split('.')) + '.lean'
+        if not os.path.exists(f):
+            continue
+        for ln in open(f, encoding='utf-8', errors='replace'):
+            mm = re.match(r'\s*(?:public\s+)?import\s+((?:AITB|Driver)\.[\w.]+)', ln)
+            if mm:
+                todo.append(mm.group(1))
+    return gens
+
+
 # ---------------------------------------------------------------- Lean
 def strip_lean_comments(src):
     # remove block comments (nested) and line comments
